@@ -280,8 +280,36 @@ static void op_dec(char **a, int n) {
     if(!has_codec(td, ats, 1)) { outf("nocodec"); return; }
     bytes_t in = unhex(a[3]);
     void *s = 0;
+    long live0 = aw_live;
     asn_dec_rval_t rv = asn_decode(0, ats, td, &s, in.p, in.n);
     outf("ok rc=%d consumed=%zu", (int)rv.code, (size_t)rv.consumed);
+    if((int)rv.code < 0 || (int)rv.code > 2) outf(" badrc=%d", (int)rv.code);
+    if(rv.consumed > in.n) outf(" overconsumed=%zu/%zu", (size_t)rv.consumed, in.n);
+    if(s && rv.code == RC_OK && n >= 5 && strchr(a[4], 's')) {
+        /* stability of what the decoder accepted: re-encode in the same syntax, decode again, same DER */
+        enum asn_transfer_syntax eats = ats == ATS_BER ? ATS_DER : ats == ATS_BASIC_OER ? ATS_CANONICAL_OER
+            : ats == ATS_UNALIGNED_BASIC_PER ? ATS_UNALIGNED_CANONICAL_PER : ats;
+        sink_t e1; int err; const char *ft;
+        ssize_t r1 = has_codec(td, eats, 0) ? encode_sink(eats, td, s, &e1, &err, &ft) : -2;
+        if(r1 >= 0) {
+            void *s2 = 0;
+            uint8_t *copy = (uint8_t *)malloc(e1.n ? e1.n : 1);
+            if(e1.n) memcpy(copy, e1.p, e1.n);
+            asn_dec_rval_t rv2 = asn_decode(0, ats, td, &s2, copy, e1.n);
+            free(copy);
+            if(rv2.code != RC_OK) outf(" restab=rc%d", (int)rv2.code);
+            else {
+                sink_t d1, d2;
+                ssize_t a1 = encode_sink(ATS_DER, td, s, &d1, &err, &ft);
+                ssize_t a2 = encode_sink(ATS_DER, td, s2, &d2, &err, &ft);
+                if(a1 != a2 || (a1 >= 0 && (d1.n != d2.n || (d1.n && memcmp(d1.p, d2.p, d1.n))))) outf(" restab=differs");
+                else outf(" restab=ok");
+                free(d1.p); free(d2.p);
+            }
+            if(s2) ASN_STRUCT_FREE(*td, s2);
+        } else if(r1 == -1) outf(" restab=encfail");
+        if(r1 != -2) free(e1.p);
+    }
     if(s) {
         if(n >= 5 && strchr(a[4], 'x')) exercise(td, s, 1);
         else {
@@ -292,6 +320,7 @@ static void op_dec(char **a, int n) {
         }
         ASN_STRUCT_FREE(*td, s);
     } else outf(" s=null");
+    if(aw_live != live0) outf(" leak=%ld", aw_live - live0);
     free(in.p);
 }
 
